@@ -34,11 +34,14 @@ def run_one(text, settings, stats, case, tmpdir, name="mod.cmake"):
     path = os.path.join(tmpdir, name)
     with open(path, "w", encoding="utf-8") as f:
         f.write(text)
+    import contextlib
+    import io
     stats.current_case = case
     try:
-        d = Documenter(path, "Title", "modname", settings)
-        w = d.process()
-        out = w.to_text()
+        with contextlib.redirect_stderr(io.StringIO()):      # ANTLR's console listener prints to stderr
+            d = Documenter(path, "Title", "modname", settings)
+            w = d.process()
+            out = w.to_text()
         return out, None
     except BaseException as ex:     # malformed inputs are allowed to fail loudly
         return None, ex
